@@ -364,6 +364,114 @@ func (rn *runner) addr(tag string, pk []byte) string {
 	return r
 }
 
+// signPathOps: the Go code around the library's signature on the signing side —
+// Signer.SignatureValues (Frontier/Homestead and EIP-155, incl. byte wrap-around and chain id 0)
+// and the native secp256k1.Sign wrapper (recovery id + 27).
+func (rn *runner) signPathOps(g gen, k *ecdsa.PrivateKey, chain *big.Int, et *eth_tx.Transaction) {
+	h := g.r.Bytes(32)
+	sig, err := crypto.Sign(h, k)
+	if err != nil {
+		return
+	}
+	sigs := [][]byte{sig}
+	for _, last := range []byte{0, 1, 2, 3, 27, 28, 220, 221, 228, 229, 255} {
+		s2 := append([]byte{}, sig...)
+		s2[64] = last
+		sigs = append(sigs, s2)
+	}
+	sigs = append(sigs, sig[:64], append(append([]byte{}, sig...), 0), nil, g.r.Bytes(65))
+	chains := []*big.Int{chain, new(big.Int), big.NewInt(1), new(big.Int).Lsh(big.NewInt(1), 63), new(big.Int).Lsh(big.NewInt(1), 70)}
+	fmtRSV := func(r, s, v *big.Int, err error) string {
+		if err != nil {
+			return "error"
+		}
+		return r.String() + " " + s.String() + " " + v.String()
+	}
+	norm := func(x string) string {
+		if strings.HasPrefix(x, "PANIC") {
+			return "panic"
+		}
+		return x
+	}
+	for si, sg := range sigs {
+		sg := sg
+		if si > 3 && g.r.Chance(2, 3) {
+			continue
+		}
+		ch := chains[g.r.Intn(len(chains))]
+		if si == 0 {
+			ch = chain
+		}
+		line := "sigv " + ch.String() + " " + hx.Hex(sg)
+		r := norm(hx.Guard(func() string { return fmtRSV(eth_tx.NewEIP155Signer(ch).SignatureValues(et, sg)) }))
+		rn.out.Emit(line, r)
+		rn.tags["sigv"]++
+		rn.res["sigv/"+strings.SplitN(r, " ", 2)[0][:min(5, len(strings.SplitN(r, " ", 2)[0]))]]++
+		if si%3 == 0 {
+			r2 := norm(hx.Guard(func() string { return fmtRSV(eth_tx.HomesteadSigner{}.SignatureValues(et, sg)) }))
+			rn.out.Emit("fsigv "+hx.Hex(sg), r2)
+			rn.tags["fsigv"]++
+		}
+	}
+	// native wrapper: the library's raw signature (the eth_crypto copy returns it unchanged, RFC 6979
+	// nonces make both copies produce the same r, s) vs common/secp256k1.Sign
+	key := pad32(k.D.Bytes())
+	raw, err1 := ethsecp.Sign(h, key)
+	nat, err2 := secp256k1.Sign(h, key)
+	if err1 == nil && err2 == nil {
+		rn.out.Emit("nsig "+hx.Hex(raw), hx.Hex(nat))
+		rn.tags["nsig"]++
+	}
+}
+
+// batchOps: the admission loop through the real handlers as a correspondence stream: small batches
+// mixing honest, forged, duplicated and aliased elements, every entry point.
+func (rn *runner) batchOps(g gen, kp *keyPool, c chainCfg, height uint64, i int) {
+	entries := []string{"worker", "write", "runwrite"}
+	for b := 0; b < 2; b++ {
+		entry := entries[(i+b)%3]
+		size := 1 + g.r.Intn(4)
+		var batch []*types.Transaction
+		kinds := ""
+		for j := 0; j < size; j++ {
+			k := g.keyFrom(kp)
+			switch g.r.Intn(6) {
+			case 0:
+				e := g.forge(k, c, height, g.r.Intn(7))
+				batch = append(batch, e.tx)
+				kinds += "F"
+			case 1:
+				if len(batch) > 0 { // duplicate of an earlier element
+					batch = append(batch, cloneTx(batch[g.r.Intn(len(batch))]))
+					kinds += "D"
+					continue
+				}
+				fallthrough
+			case 2:
+				e := g.honestElem(k, c, height, true)
+				batch = append(batch, e.tx)
+				kinds += "E"
+			case 3:
+				if len(batch) > 0 && batch[len(batch)-1].Type != types.TransactionTypeETHTX && batch[len(batch)-1].Sign != nil {
+					// same hash, other spelling of the recovery id: refused by the pool as existing
+					a := cloneTx(batch[len(batch)-1])
+					a.Sign = recidAlias(a.Sign)
+					batch = append(batch, a)
+					kinds += "A"
+					continue
+				}
+				fallthrough
+			default:
+				e := g.honestElem(k, c, height, false)
+				batch = append(batch, e.tx)
+				kinds += "N"
+			}
+		}
+		r := rn.batchOp("batch-"+entry, entry, c, height, batch)
+		rn.res["batch-shape/"+kinds+"="+r]++
+	}
+}
+
 func (rn *runner) conv(tag string, chain *big.Int, enc []byte) string {
 	o := newOracle()
 	ethOracle(o, enc, chain)
@@ -1140,6 +1248,8 @@ func main() {
 		}
 		rn.vt("eth-honest", c, height, wtx)
 		rn.conv("conv-honest", chain, enc)
+		rn.signPathOps(g, k, chain, et)
+		rn.batchOps(g, pool2, c, height, i)
 		// padding classes of the payload signature: r or s with a leading zero byte (31-byte RLP strings)
 		for _, class := range []string{"short-r", "short-s"} {
 			for tries := 0; tries < 1500; tries++ {
